@@ -39,7 +39,7 @@ CLAIMED["C02"] = {
 
 CLAIMED["C10"] = {
     "category": "other",
-    "text": "Totality of Multiboot2Header::load and calc_checksum (panic-edge census, every site discharged); early-exit chain of load with the exact guards in dominance order (null; C14's memory chain over the slice of the raw declared length; magic != 0xE85250D6; checksum predicate); ring normal form mod 2^32 shows calc_checksum = -(m + a + l), the load predicate compares exactly that with the stored checksum, and set_size stores length and recomputed checksum - for all 2^32 x 2 x 2^32 arguments.",
+    "text": "Totality of Multiboot2Header::load and calc_checksum (panic-edge census, every site discharged); early-exit chain of load with the exact guards in dominance order (null; C14's memory chain over the slice of the raw declared length; magic != 0xE85250D6; checksum predicate); ring normal form mod 2^32 shows calc_checksum = -(m + a + l), the load predicate compares exactly that with the stored checksum in a 32-bit comparison (a wider comparison is not its residue), and set_size stores length and recomputed checksum - for all 2^32 x 2 x 2^32 arguments.",
     "design_ref": "DESIGN.md §4 C10, §3.14",
     "note": TB + "; architecture word assumed to hold a defined value (hypothesis of the property); relies on C14",
     "technique": "panic-edge census + early-exit chain extraction + ring normal form in Z/2^32 over MIR terms",
@@ -55,7 +55,7 @@ CLAIMED["C13"] = {
 
 CLAIMED["C15"] = {
     "category": "other",
-    "text": "Decided on the polymorphic MIR of DynSizedStructure<H>::cast<T> - hence for every header and every user-defined sized or dynamically sized T - and re-decided on all 31 instantiations: the BASE_SIZE >= header guard dominates the unsafe reference creation; address = self, metadata = T::dst_len(self.header()); the size_of_val equality is a fact at the return (must-pass-through, failing edge diverges); the compared reference is the one returned and is only measured before the comparison; get_tag reaches typed references only through cast. With the DST layout rule this gives size_of_val(result) = round8(tag size) or a panic.",
+    "text": "Decided on the polymorphic MIR of DynSizedStructure<H>::cast<T> - hence for every header and every user-defined sized or dynamically sized T - and re-decided on all 31 instantiations: the BASE_SIZE >= header guard dominates the unsafe reference creation; address = self, metadata = T::dst_len(self.header()); the size_of_val equality is a fact at the return (must-pass-through, failing edge diverges); the compared reference is the one returned and is only measured before the comparison; get_tag reaches typed references only through cast; the structure cast starts from is created with the header's own payload length as metadata (imported premise C14.B4). With the DST layout rule this gives size_of_val(result) = round8(tag size) or a panic.",
     "design_ref": "DESIGN.md §4 C15",
     "note": TB + "; the user type truthfully declares BASE_SIZE/dst_len (hypothesis); type-level restrictions (K6) are compile-fail witnesses in the thorough tier",
     "technique": "guard-dominance and must-pass-through facts on polymorphic + monomorphic MIR, value-term identity of compared and returned reference",
@@ -95,7 +95,7 @@ CLAIMED["C03"] = {
 
 CLAIMED["C08"] = {
     "category": "other",
-    "text": "Absence of the known sources of profile/feature divergence on the parse path (all instances reachable from the public API of the no-default-features build): every overflow-checked, unchecked or dividing arithmetic site is enumerated and either discharged by a rule (constants, guarded subtraction, type ranges, bounded counters, proven struct invariants) or carries a listed reason; every type viewed over boot-loader memory is checked for invalid bit patterns field by field; every function body is structurally identical with/without the builder and alloc features and (thorough) with debug assertions on; no unchecked intrinsics. Nine genuine divergence sources remain as known findings. Equality of outcomes as such is not computed.",
+    "text": "Absence of the known sources of profile/feature divergence on the parse path (all instances reachable from the public API of the no-default-features build): every overflow-checked, unchecked or dividing arithmetic site is enumerated and either discharged by a rule (constants, guarded subtraction, type ranges, bounded counters, proven struct invariants) or carries a listed reason; every type viewed over boot-loader memory is checked for invalid bit patterns field by field; every function body is structurally identical with/without the builder feature and with debug assertions on (alloc-only: thorough tier), and from the same public roots both feature configurations reach the same parse-path instances resolved to the same code (a cfg-gated override of a trait's provided method is a difference although every common body is identical); no unchecked intrinsics. Nine genuine divergence sources remain as known findings. Equality of outcomes as such is not computed.",
     "design_ref": "DESIGN.md §4 C08, §3.4, §3.11, §3.12",
     "note": TB + "; exception-table reasons are hand-confirmed; LLVM-level behaviour out of reach",
     "technique": "arithmetic-site census over the instance call graph with guard/range/invariant discharge + niche (bit-validity) census + cross-configuration structural body hashes",
